@@ -4,13 +4,15 @@
 #   "<seed> <property> exit=<n> violations=<n> replay-confirmed=<n> :: <first VIOLATION line or ->"
 # The worktree lives in /tmp/wt/seed-$$ and is removed at the end; /repo itself is never touched.
 cd /verif
-sel="$@"; [ -z "$sel" ] && sel=$(ls seeded | grep -E '^C[0-9]+-[0-9]+$')
+# SEEDED_DIR=seeded/benign runs the behaviour-preserving changes of round 3 instead (expected: exit 0, no VIOLATION).
+dir=${SEEDED_DIR:-seeded}
+sel="$@"; [ -z "$sel" ] && sel=$(ls $dir | grep -E '^C[0-9]+-(b)?[0-9]+$')
 wt=/tmp/wt/seed-$$
 mkdir -p /tmp/wt
 git -C /repo worktree add -q --detach $wt HEAD || exit 2
 trap 'git -C /repo worktree remove --force '$wt' 2>/dev/null; git -C /repo worktree prune' EXIT
 for s in $sel; do
-  for d in seeded/$s*; do
+  for d in $dir/$s*; do
     [ -f "$d/patch.diff" ] || continue
     name=$(basename $d); prop=${name%%-*}
     git -C $wt apply "$PWD/$d/patch.diff" || { echo "$name: patch does not apply"; continue; }
